@@ -225,10 +225,19 @@ fn gen_impl_delegation_trait_defs(
                     continue;
                 }
 
+                // the `__impl` parameter is the dependency, so a lifetime named on `&self` moves there
+                let lifetime = match trait_fn.entrait_sig.sig.inputs.first_mut() {
+                    Some(syn::FnArg::Receiver(receiver)) => receiver
+                        .reference
+                        .as_mut()
+                        .and_then(|(_, lifetime)| lifetime.take()),
+                    _ => None,
+                };
+
                 trait_fn.entrait_sig.sig.inputs.insert(
                     1,
                     syn::parse_quote! {
-                        __impl: &::#entrait::Impl<EntraitT>
+                        __impl: & #lifetime ::#entrait::Impl<EntraitT>
                     },
                 );
             }
